@@ -103,7 +103,7 @@ void World::checkPlansStorage(int i, const Op& op, const Obs& before) {
 	std::vector<std::vector<TaskV>> execModel; bool execTaken = false;   // the plans as they stood when the passes ended (what the executor saw)
 	for (const Edit& e : edits) {
 		if (e.region < 0 || e.region >= sh.nRegions) continue;
-		const bool afterExecution = step && lastPassEv >= 0 && e.ev > lastPassEv;
+		const bool afterExecution = step && firstAfterPass >= 0 && e.ev > firstAfterPass;   // edits made inside the last pass callback still precede the executor
 		if (afterExecution && !execTaken) { execModel = model; execTaken = true; }
 		if (afterExecution) exact = false;       // executed tasks are gone by now: indices and counts are no longer known to this model
 		auto& pl = model[size_t(e.region)];
@@ -215,7 +215,7 @@ void World::checkPlansStorage(int i, const Op& op, const Obs& before) {
 		}
 	} else issuedKnown = false;    // no guard ran and no logger listened: requests that changed nothing left no trace
 	// tasks that disappeared from the (edited) plans
-	bool editsAfterPass = false; for (auto& e : edits) if (lastPassEv >= 0 && e.ev > lastPassEv) editsAfterPass = true;
+	bool editsAfterPass = false; for (auto& e : edits) if (firstAfterPass >= 0 && e.ev > firstAfterPass) editsAfterPass = true;
 	for (const Tr& q : planIssued) {
 		checked("C06.issued_matches_task");
 		probe("plan_task_executed");
